@@ -67,7 +67,7 @@ DefragCalls(s) ==
   {[op |-> "Defrag", m |-> m] : m \in {x \in {0, 1, 2, 3} : MaxNilRun(s.e, 0, 0) < DefragLimit(x)}}
 
 SettingCalls(s) ==
-       {[op |-> "SetID", v |-> v] : v \in {"", "x"}}
+       {[op |-> "SetID", v |-> v] : v \in {"", "x", "_random", "_RANDOM", "_addr"}}
   \cup {[op |-> "SetCategory", v |-> v] : v \in {"", "k"}}
   \cup {[op |-> "SetDelimiter", form |-> "str", v |-> v] : v \in {"", ","}}
   \cup {[op |-> "SetDelimiter", form |-> "rune", v |-> ";"], [op |-> "SetDelimiter", form |-> "nil", v |-> ""],
@@ -83,6 +83,15 @@ GrowCalls == {[op |-> "Push", xs |-> xs] : xs \in Batches} \cup {[op |-> "Pop"],
 
 MarshalCalls == {[op |-> "Marshal", kind |-> k, xs |-> xs] : k \in {"AND", "LIST"}, xs \in {<<>>, <<"a">>, <<"a", "nil">>}}
 
+\* log-level arguments: names / constants (one bit), raw integers (several bits), the two shortcuts
+LvArg(bits) == [bits |-> bits, none |-> FALSE, all |-> FALSE, form |-> IF Len(bits) = 1 THEN "name" ELSE "int"]
+LvArgs == {LvArg(<<1>>), LvArg(<<4>>), [LvArg(<<3>>) EXCEPT !.form = "const"], LvArg(<<3, 4, 6>>), [LvArg(<<16>>) EXCEPT !.form = "const"],
+           [bits |-> <<>>, none |-> TRUE, all |-> FALSE, form |-> "name"], [bits |-> <<>>, none |-> TRUE, all |-> FALSE, form |-> "int"],
+           [bits |-> <<>>, none |-> FALSE, all |-> TRUE, form |-> "const"], [bits |-> <<>>, none |-> FALSE, all |-> TRUE, form |-> "name"]}
+LogCalls ==
+       {[op |-> "SetLogLevel", args |-> a] : a \in [1..1 -> LvArgs] \cup {<<x, y>> : x \in {LvArg(<<1>>), LvArg(<<3, 4, 6>>)}, y \in LvArgs}}
+  \cup {[op |-> "UnsetLogLevel", args |-> a] : a \in [1..1 -> {x \in LvArgs : ~x.all}] \cup {<<LvArg(<<4>>), LvArg(<<1>>)>>}}
+
 ClosureCalls ==
        {[op |-> "SetValidityPolicy", mode |-> m] : m \in {"none", "ok", "bad"}}
   \cup {[op |-> o, on |-> b] : o \in {"SetPresentationPolicy", "SetEqualityPolicy", "SetUnmarshaler", "SetMarshaler"}, b \in BOOLEAN}
@@ -90,6 +99,7 @@ ClosureCalls ==
 Calls(s) ==
        (IF "list" \in Fams THEN ListCalls(s) ELSE {})
   \cup (IF "closures" \in Fams THEN ClosureCalls ELSE {})
+  \cup (IF "loglevel" \in Fams THEN LogCalls ELSE {})
   \cup (IF "grow" \in Fams THEN GrowCalls ELSE {})
   \cup (IF "marshal" \in Fams THEN MarshalCalls ELSE {})
   \cup (IF "opts" \in Fams THEN OptCalls ELSE {})
@@ -204,6 +214,15 @@ OptIndependence(s, t) ==
               (t.c.f \in t.s.opts) = (CASE t.c.m = "on" -> TRUE [] t.c.m = "off" -> FALSE
                                          [] OTHER -> t.c.f \notin s.opts))
 
+\* C18: log levels form a bit-set with faithful "none" / "all" shortcuts; nothing else changes
+LogLevelLaw(s, t) ==
+  (t.on = "st" /\ t.c.op \in {"SetLogLevel", "UnsetLogLevel"}) =>
+     /\ [t.s EXCEPT !.lvl = {}] = [s EXCEPT !.lvl = {}]
+     /\ (~Usable(s) => t.s = s)
+     /\ (Usable(s) /\ t.c.op = "SetLogLevel" /\ Len(t.c.args) = 1 /\ ~t.c.args[1].none /\ ~t.c.args[1].all
+            => t.s.lvl = s.lvl \cup LoRange(t.c.args[1].bits))
+     /\ (Usable(s) /\ t.c.op = "UnsetLogLevel" /\ Len(t.c.args) = 1 => t.s.lvl = s.lvl \ LoRange(t.c.args[1].bits))
+
 \* C13: while no-nesting is on (and no policy decides) Push stores every
 \* non-Stack value and no Stack value (capacity permitting)
 NoNestPush(s, t) ==
@@ -249,7 +268,7 @@ StepProps ==
   /\ ListLaws(st)
   /\ \A t \in Trans(st, dst) :
         /\ LenDelta(st, t) /\ ReadOnlyFrame(st, t) /\ Inert(st, t) /\ OptIndependence(st, t)
-        /\ NoNestPush(st, t) /\ PolicyDecides(st, t) /\ TransferFrame(st, dst, t) /\ ClosuresDecide(st, t)
+        /\ NoNestPush(st, t) /\ PolicyDecides(st, t) /\ TransferFrame(st, dst, t) /\ ClosuresDecide(st, t) /\ LogLevelLaw(st, t)
         /\ (t.s.live /\ t.s.cap > 0 => Len(t.s.e) <= t.s.cap)
 
 \* genuine action properties
@@ -261,7 +280,7 @@ DeadStaysDead == [][(~st.live /\ "marshal" \notin Fams) => ~st'.live]_vars
 (* carrying its observables and every enabled transition (successor given  *)
 (* as the set of changed fields).                                          *)
 
-JState(s) == [s EXCEPT !.opts = SetToSeq(s.opts), !.acc = SetToSeq(s.acc)]
+JState(s) == [s EXCEPT !.opts = SetToSeq(s.opts), !.acc = SetToSeq(s.acc), !.lvl = SetToSeq(s.lvl)]
 Delta(a, b) == LET J == JState(b) IN [f \in {f \in DOMAIN a : a[f] # b[f]} |-> J[f]]
 
 EmitRec ==
